@@ -459,6 +459,7 @@ pub fn run(ws: &Ws, prop: &dyn Property, opts: &Opts) -> Result<i32, String> {
     let violations: Mutex<Vec<(u64, Case, Violation)>> = Mutex::new(Vec::new());
     let harness_errors: Mutex<Vec<String>> = Mutex::new(Vec::new());
     let seed = opts.seed;
+    let only_case: Option<u64> = std::env::var("VERIF_ONLY_CASE").ok().and_then(|s| s.parse().ok());
 
     std::thread::scope(|scope| {
         for _ in 0..opts.workers {
@@ -472,11 +473,26 @@ pub fn run(ws: &Ws, prop: &dyn Property, opts: &Opts) -> Result<i32, String> {
                     if index >= max_cases {
                         break;
                     }
+                    if let Some(only) = only_case {
+                        // debugging aid (VERIF_ONLY_CASE=n): evaluate that one case, twice, and say how long it took
+                        if index != only {
+                            continue;
+                        }
+                    }
                     let mut rng = Rng::derive(seed, prop.id(), index);
                     let mut case = prop.generate(&mut rng, index, &opts.tier);
                     vary_option_spellings(&mut case, &mut Rng::derive(seed ^ 0x5be1_1196, prop.id(), index));
+                    let t_case = Instant::now();
                     let o = match prop.evaluate(&exec, &case) {
-                        Ok(o) => o,
+                        Ok(o) => {
+                            if only_case.is_some() {
+                                println!("case {index}: {} executions, {} steps, {:.1} s, digest {:016x}, note {}", o.runs, o.steps, t_case.elapsed().as_secs_f64(), o.digest, case.scenarios[0].note);
+                                if let Ok(o2) = prop.evaluate(&exec, &case) {
+                                    println!("case {index} again: digest {:016x}", o2.digest);
+                                }
+                            }
+                            o
+                        }
                         Err(e) => {
                             harness_errors.lock().unwrap().push(format!("case {index}: {e}"));
                             stop.store(true, Ordering::Relaxed);
